@@ -14,8 +14,8 @@ pub const META: Meta = Meta {
         "programs whose let rebinds the counter of its own loop are out of the statement's domain",
         "programs the reference cannot finish in 400 rows / 6000 steps are inconclusive, not counted",
     ],
-    quick_cases: 30_000,
-    thorough_cases: 1_500_000,
+    quick_cases: 150000,
+    thorough_cases: 3000000,
     floor: 500,
 };
 
